@@ -248,6 +248,12 @@ Error RACFGBuilder::on_instruction(InstNode* inst, InstControlFlow& cf, RAInstBu
               }
             }
 
+            // Do not use RegMem flag if the write zero extends the rest of the virtual register - a memory operand
+            // would only write the accessed bytes and leave the rest of the register's home slot unchanged.
+            if (Support::test(flags, RATiedFlags::kWrite) && (work_reg->reg_byte_mask() & op_rw_info.extend_byte_mask() & ~op_rw_info.write_byte_mask())) {
+              flags &= ~(RATiedFlags::kUseRM | RATiedFlags::kOutRM);
+            }
+
             // Do not use RegMem flag if changing Reg to Mem requires a CPU feature that is not available.
             if (rw_info.rm_feature() && Support::test(flags, RATiedFlags::kUseRM | RATiedFlags::kOutRM)) {
               if (!cc().code()->cpu_features().has(rw_info.rm_feature())) {
